@@ -77,7 +77,7 @@ def format_registry(prog):
     mod = prog.mod("_format")
     deco_func = prog.resolve_name(mod, "_checks_drafts")
     if not isinstance(deco_func, Func):
-        raise AnalysisError("_format._checks_drafts vanished")
+        deco_func = prog.func("_format._checks_drafts")     # found by role when renamed (see Prog._by_role)
     dparams = deco_func.params
     entries = []
     name_sources = {}   # name -> [modules that can bind it through a guarded import]
